@@ -238,6 +238,22 @@ CLAIMS["C18"] = dict(
     design_ref="DESIGN.md §3 C18",
 )
 
+CLAIMS["C19"] = dict(
+    technique="symbolic evaluation of type-checked HIR with axiomatised rand API; sibling agreement (new vs new_inclusive); end-point inverse laws; interval abstract interpretation against the type's own IsWithinBounds; closed-form comparison with the volume-uniform inverse CDFs",
+    category="other",
+    text=("With rand's API axiomatised (Uniform::new(a,b).sample in [a,b), Standard float in [0,1), borrow = identity): for all 26 "
+          "UniformSampler impls new and new_inclusive are the same function modulo the Uniform constructor and each uses only its own kind; "
+          "the sampler built from (low, high) yields exactly low / high when every inner Uniform is at its lower / upper end - so each "
+          "inner range comes from the same component of both ends and the transform applied to the ends (square, cube, bicone CDF, unit "
+          "scaling) is undone after sampling; hue arcs run from the normalised low end to the normalised high end unwrapped by 360 exactly "
+          "when the arc passes 0, and sampled degrees are returned unscaled; HWB forms build the HSV sampler between per-component min/max "
+          "of the converted ends and convert the sample back. All 26 Standard distributions stay inside the type's own IsWithinBounds box "
+          "for all variates in [0,1) (interval evaluation incl. sqrt/cbrt), hues in [0,360). Cone/bicone/cylinder samplers use three "
+          "independent variates through the inverse CDFs of the volume-uniform density (cbrt, bicone inverse, linear; sqrt for the radius), "
+          "invert_*.sample_* = id. Not decided: statistical uniformity, monotonicity of the transforms between the end points, rand itself."),
+    design_ref="DESIGN.md §3 C19",
+)
+
 NOT_YET = "check under construction (see DESIGN.md §7 build order); will be claimed when its rule is armed"
 NA = {}
 
